@@ -638,7 +638,7 @@ Lemma start_op_active_fresh s o p ex :
   ~ In o (active s) -> active (start_op s o p ex) = active s ++ [o].
 Proof. intros N. apply memz_false in N. unfold start_op. rewrite N. reflexivity. Qed.
 
-Lemma start_mid s ws o p : Inv (s, ws) -> get_ctx s o = None -> Mid (start_op s o p false) ws.
+Lemma start_mid s ws o p ex : Inv (s, ws) -> get_ctx s o = None -> Mid (start_op s o p ex) ws.
 Proof.
   intros [W K He Hn Hl] F. simpl in *.
   assert (Na : ~ In o (active s)) by now apply wf_fresh_not_active.
@@ -879,7 +879,7 @@ Proof. induction L as [|o L IH]; intros s M; simpl; auto. apply IH, abort_if_act
 Lemma gstep_inv w gs h : Inv gs -> Inv (fst (gstep current w gs h)).
 Proof.
   destruct gs as [s ws]. intros I. pose proof (inv_mid _ _ I) as M.
-  unfold gstep. destruct h as [o p|o r|o r|o|o|]; cbn [to_fop fstep note_attempt].
+  unfold gstep. destruct h as [o p|o r|o r|o|o| |o|o p]; cbn [to_fop fstep note_attempt].
   - destruct (has_ctx s o) eqn:E; simpl; apply mid_inv; auto.
     apply start_mid; auto. now apply has_ctx_false.
   - destruct (is_active s o) eqn:E; simpl; [|apply mid_inv; auto].
@@ -891,6 +891,11 @@ Proof.
   - destruct (is_active s o); simpl; apply mid_inv; auto. now apply finish_mid.
   - destruct (is_active s o); simpl; apply mid_inv; auto. now apply finish_mid.
   - unfold wd_execute. rewrite fold_abort_events. simpl. apply mid_inv. now apply abort_fold_mid.
+  - (* manual kill: an abort *)
+    destruct (is_active s o); simpl; apply mid_inv; auto. now apply finish_mid.
+  - (* a start with the watchdog_exempt mark *)
+    destruct (has_ctx s o) eqn:E; simpl; apply mid_inv; auto.
+    apply start_mid; auto. now apply has_ctx_false.
 Qed.
 
 Lemma ginit_inv res : Inv (ginit res).
@@ -1267,6 +1272,35 @@ Proof.
     assert (r = r') by lia. subst. now rewrite Hl.
 Qed.
 
+(* the other calls of the step API that are no acquisition / release / end of an operation:
+   time passing, controller.advance, ResourceLock.pop_next_waiter *)
+Definition quiet_fop (a : fop) : Prop :=
+  match a with FTick _ | FAdvance _ | FPopWaiter _ => True | _ => False end.
+
+Lemma quiet_fop_same fl w s a : quiet_fop a -> same_rel s (fst (fstep fl w s a)).
+Proof.
+  intros Q. destruct a; try destruct Q.
+  - (* time passes *)
+    constructor; auto. intros W. exact (fstep_wf w s (FTick d) W).
+  - (* advance: only ctx.phase / phase_entered_at change *)
+    constructor.
+    + intros W. exact (fstep_wf w s (FAdvance o) W).
+    + cbn [fstep]. unfold advance. destruct (is_active s o); auto.
+      destruct (get_ctx s o) as [c|]; auto. destruct (default_cond c); auto.
+    + cbn [fstep]. unfold advance. destruct (is_active s o); auto.
+      destruct (get_ctx s o) as [c|]; auto. destruct (default_cond c); auto.
+    + intros r. cbn [fstep]. unfold advance. destruct (is_active s o); auto.
+      destruct (get_ctx s o) as [c|]; auto. destruct (default_cond c); auto.
+  - (* pop_next_waiter: only the waiting list of r changes *)
+    constructor.
+    + intros W. exact (fstep_wf w s (FPopWaiter r) W).
+    + cbn [fstep]. destruct (get_lock s r) as [l|]; auto. destruct (l_wait l); auto.
+    + cbn [fstep]. destruct (get_lock s r) as [l|]; auto. destruct (l_wait l); auto.
+    + intros r'. cbn [fstep]. destruct (get_lock s r) as [l|] eqn:Hl; auto. destruct (l_wait l); auto.
+      cbn [fst]. rewrite !owner_def, get_lock_put_lock. destruct (Z.eqb r r') eqn:E; auto.
+      assert (r = r') by lia. subst. now rewrite Hl.
+Qed.
+
 Lemma boost_chain_same : forall ch s bs maxp, same_rel s (fst (fst (boost_chain s bs maxp ch))).
 Proof.
   induction ch as [|o ch IH]; intros s bs maxp; cbn [boost_chain]; [apply same_rel_refl|].
@@ -1319,7 +1353,7 @@ Lemma prio_call_same fl w xs a :
   same_rel (fst (fst xs)) (fst (fst xs')) /\ snd (fst xs') = snd (fst xs).
 Proof.
   intros P. destruct xs as [[s ws] bs].
-  destruct a as [h|  |o|  |o p|r b]; [destruct P| | | | |]; cbn [xstep].
+  destruct a as [h|  |o|  |o p|r b|d|o|r]; [destruct P| | | | | | | |]; cbn [xstep].
   - pose proof (boost_waiters_same (edges s) (map fst (edges s)) s bs) as X.
     unfold check_and_boost. destruct (boost_waiters (edges s) (map fst (edges s)) s bs) as [[[s' bs'] nb]|].
     + simpl. split; auto. exact (X _ eq_refl).
@@ -1329,6 +1363,12 @@ Proof.
   - simpl. split; auto. apply clear_boosts_same.
   - destruct (is_active s o); simpl; split; auto; [apply set_prio_same | apply same_rel_refl].
   - destruct (get_lock s r) as [l|] eqn:Hl; simpl; split; auto; [now apply set_preempt_same | apply same_rel_refl].
+  - pose proof (quiet_fop_same fl w s (FTick d) I) as X. unfold xfop.
+    destruct (fstep fl w s (FTick d)) as [s' ret]. simpl in *. split; auto.
+  - pose proof (quiet_fop_same fl w s (FAdvance o) I) as X. unfold xfop.
+    destruct (fstep fl w s (FAdvance o)) as [s' ret]. simpl in *. split; auto.
+  - pose proof (quiet_fop_same fl w s (FPopWaiter r) I) as X. unfold xfop.
+    destruct (fstep fl w s (FPopWaiter r)) as [s' ret]. simpl in *. split; auto.
 Qed.
 
 Lemma rec_edges_same s s' : edges s' = edges s -> rec_edges s' = rec_edges s.
@@ -1362,7 +1402,7 @@ Qed.
 (* -- all histories over the extended alphabet -------------------------- *)
 Lemma xstep_inv w xs a : Inv (fst xs) -> Inv (fst (fst (xstep current w xs a))).
 Proof.
-  intros Hi. destruct a as [h|  |o|  |o p|r b].
+  intros Hi. destruct a as [h|  |o|  |o p|r b|d|o|r].
   1:{ destruct xs as [[s ws] bs]. cbn [xstep]. pose proof (gstep_inv w (s, ws) h Hi) as X.
       destruct (gstep current w (s, ws) h) as [gs' ret]. exact X. }
   all: match goal with |- Inv (fst (fst (xstep _ _ _ ?a))) =>
@@ -1378,6 +1418,13 @@ Proof. induction hs as [|a hs IH]; intros xs Hi; simpl; auto. apply IH, xstep_in
 
 Lemma xreachable_inv res w hs : Inv (fst (xrun current w (xinit res) hs)).
 Proof. apply xrun_inv, xinit_inv. Qed.
+
+(* a manual kill (CoordinationSystem.kill_operation -> Watchdog.manual_kill) is an abort *)
+Lemma kill_is_abort_proof fl w gs o : fst (gstep fl w gs (HKill o)) = fst (gstep fl w gs (HAbort o)).
+Proof.
+  destruct gs as [s ws]. unfold gstep. cbn [to_fop fstep note_attempt].
+  destruct (is_active s o); reflexivity.
+Qed.
 
 (* histories over the basic alphabet are the histories without priority calls *)
 Lemma xrun_hops_proof fl w hs : forall gs bs,
